@@ -49,6 +49,7 @@ def reshape (S : Sparse α) (newShape : List Nat) (oldModes : Option (List Nat))
   let keepShape := gather S.shape keep
   if numel newShape != numel oldShape then .error .reject
   else if om.any (· ≥ n) then .error .reject
+  else if om.eraseDups.length != om.length then .error .reject
   else
     .ok ⟨keepShape ++ newShape,
          S.subs.map (fun r => gather r keep ++ ind2sub newShape (sub2ind oldShape (gather r om))),
@@ -86,8 +87,10 @@ def Sptenmat.mkCopy [Add α] [Zero α] [BEq α] (subs : List (List Nat)) (vals :
     (rdims cdims tshape : List Nat) : Except Reject (Sptenmat α) :=
   let n := tshape.length
   if !isPermOf (rdims ++ cdims) n then .error .reject
-  else if subs.any (fun r => r.getD 0 0 > numel (gather tshape rdims)) then .error .reject
-  else if subs.any (fun r => r.getD 1 0 > numel (gather tshape cdims)) then .error .reject
+  else if subs.any (fun r => r.length != 2) then .error .reject
+  else if subs.length != vals.length then .error .reject
+  else if subs.any (fun r => r.getD 0 0 ≥ numel (gather tshape rdims)) then .error .reject
+  else if subs.any (fun r => r.getD 1 0 ≥ numel (gather tshape cdims)) then .error .reject
   else
     let agg := (aggregateSum subs vals).filter (fun e => !(e.2 == 0))
     .ok ⟨tshape, rdims, cdims, agg.map (·.1), agg.map (·.2)⟩
